@@ -17,4 +17,6 @@ PROPS = {
     'C13': {'module': 'sim.c13', 'quick': 3000, 'thorough': 150000, 'chunk': 30},
     'C14': {'module': 'sim.c14', 'quick': 2500, 'thorough': 120000, 'chunk': 30},
     'C08': {'module': 'sim.world_c08', 'quick': 4000, 'thorough': 250000, 'chunk': 50},
+    'C04': {'module': 'sim.c04', 'quick': 1500, 'thorough': 60000, 'chunk': 20},
+    'C17': {'module': 'sim.c17', 'quick': 1200, 'thorough': 60000, 'chunk': 20},
 }
